@@ -555,6 +555,107 @@ func runC16(r *Run) {
 		}
 	}
 	r.Floor("R5", "handler loops with a Cosmos-side effect", nLoopEff, 1)
+	// R10: a read-only method reports what the native read returned
+	r.Rule("R10", "FLOW.native-answer-unedited: a read-only precompile method never stores into the object the native read returned (no field or element of the response is replaced between the native call and the ABI packing) — filtering or rewriting the response makes the precompile answer differ from the native query at the heights where the filter bites")
+	nQ := 0
+	for _, m := range wiredPrecompiles(r) {
+		for _, h := range m.Handlers {
+			if h.Fn == nil || h.IsTx {
+				continue
+			}
+			nQ++
+			bad := ""
+			for _, f := range withAnon(h.Fn) {
+				eachInstr(f, func(in ssa.Instruction) {
+					st, ok := in.(*ssa.Store)
+					if !ok {
+						return
+					}
+					for a := st.Addr; a != nil; {
+						switch x := a.(type) {
+						case *ssa.FieldAddr:
+							a = x.X
+						case *ssa.IndexAddr:
+							a = x.X
+						case *ssa.UnOp:
+							a = x.X
+						case *ssa.Extract:
+							a = x.Tuple
+						case *ssa.Call:
+							if sc := x.Call.StaticCallee(); sc != nil && !strings.Contains(fnPkgPath(sc), "/precompiles/") && !isHaqqPath(fnPkgPath(sc)) || x.Call.IsInvoke() {
+								if bad == "" {
+									bad = callInfo(x).String() + " edited at " + P.Pos(instrPos(in))
+								}
+							}
+							a = nil
+						default:
+							a = nil
+						}
+					}
+				})
+			}
+			r.Check(bad == "", "R10", fnID(h.Fn)+"#native-answer-unedited", P.Pos(fnPos(h.Fn)), "no store into a native response",
+				"the read-only method rewrites the response of "+bad+" before packing it: its answer is no longer the native query's answer")
+		}
+	}
+	r.Floor("R10", "read-only precompile methods", nQ, 20)
+	// R9: the message a precompile hands to the native message server passed the native stateless validation
+	r.Rule("R9", "PATH.message-validated-like-native: every precompile function that builds a native message from calldata (it returns a *Msg… of a Cosmos module and an error) reaches a success exit only through an error-checked ValidateBasic() of the very message it returns — BaseApp validates a native message before delivery and the SDK's message servers do not validate again, so a constructor that validates 'by hand' accepts boundary inputs (a zero amount, an empty address) the native transaction rejects")
+	nCtor := 0
+	for _, fn := range P.Funcs {
+		if !strings.Contains(fnPkgPath(fn), "/precompiles/") || fn.Synthetic != "" || fn.Parent() != nil || isTestSupport(P, fn) {
+			continue
+		}
+		res := fn.Signature.Results()
+		if res.Len() < 2 || !isErrorType(res.At(res.Len()-1).Type()) {
+			continue
+		}
+		pt, ok := res.At(0).Type().(*types.Pointer)
+		if !ok || !strings.HasPrefix(namedName(pt.Elem()), "Msg") || isHaqqPath(namedPkgPath(pt.Elem())) {
+			continue
+		}
+		if types.NewMethodSet(pt).Lookup(nil, "ValidateBasic") == nil {
+			continue
+		}
+		nCtor++
+		var bad []ssa.Instruction
+		eachInstr(fn, func(in ssa.Instruction) {
+			ret, ok := in.(*ssa.Return)
+			if !ok || classifyExit(ret) == ExitFailure {
+				return
+			}
+			msg := stripValue(retOperands(ret)[0])
+			// handed through from another constructor of this kind (checked on its own)
+			if ex, ok := msg.(*ssa.Extract); ok && ex.Index == 0 {
+				if c, ok := ex.Tuple.(*ssa.Call); ok && c.Call.StaticCallee() != nil && strings.Contains(fnPkgPath(c.Call.StaticCallee()), "/precompiles/") {
+					if rt, ok := c.Call.StaticCallee().Signature.Results().At(0).Type().(*types.Pointer); ok && types.Identical(rt, pt) {
+						return
+					}
+				}
+			}
+			isVB := func(x ssa.Instruction) bool {
+				c, ok := x.(ssa.CallInstruction)
+				if !ok || callInfo(c).Name != "ValidateBasic" || !errHandled(c) {
+					return false
+				}
+				a := callArgs(c)
+				if len(a) == 0 {
+					return false
+				}
+				recv := a[0]
+				if u, ok := recv.(*ssa.UnOp); ok && u.Op == token.MUL {
+					recv = u.X
+				}
+				return stripValue(recv) == msg
+			}
+			if w := (PathQuery{Fn: fn, Block: isVB, Target: func(x ssa.Instruction) bool { return x == in }}).Search(); w != nil && bad == nil {
+				bad = w
+			}
+		})
+		r.Check(bad == nil, "R9", fnID(fn)+"#validated-like-native", P.Pos(fnPos(fn)), "every success exit passes ValidateBasic() of the returned message",
+			"the message constructor can return a message that did not pass its own ValidateBasic(): the native route rejects such a message before delivery, the precompile executes it (e.g. a zero-amount delegate stores an empty delegation / unbonding entry)", P.witness(bad)...)
+	}
+	r.Floor("R9", "precompile message constructors", nCtor, 9)
 	// RunSetup
 	if rs, ok := P.FnOK("(precompiles/common.Precompile).RunSetup"); ok {
 		okMeter := false
